@@ -487,11 +487,11 @@ fn alias_value(r: &mut Rng, names: &[&str]) -> String {
         5 => " \\\n".to_string(),
         _ => String::new(),
     };
-    match r.below(24) {
+    match r.below(34) {
         0 => String::new(),
         1 => " ".into(),
-        2..=7 => atom(r, names) + &tail(r),
-        8..=12 => {
+        2..=11 => atom(r, names) + &tail(r),
+        12..=21 => {
             let n = 2 + r.below(2);
             let mut s = String::new();
             for i in 0..n {
@@ -502,16 +502,16 @@ fn alias_value(r: &mut Rng, names: &[&str]) -> String {
             }
             s + &tail(r)
         }
-        13 => pick_s(r, &["if", "then", "else", "fi", "{", "}", "!", "do", "done", "elif", "for", "case", "in", "esac", "function"]) + &tail(r),
-        14 => format!("if {}; then", atom(r, names)) + &tail(r),
-        15 => pick_s(r, &["{ ", "( ", "! ", "while false; do ", "until true; do "]) + &atom(r, names) + &tail(r),
-        16 => pick_s(r, &["|", ";", "&&", "||", "&", ")", "(", ";;", "()", "=("]) + &tail(r),
-        17 => format!("{} {}", atom(r, names), pick_s(r, &["|", ";", "&&", "||"])) + &tail(r),
-        18 => format!("{} {}", pick_s(r, &["|", ";", "&&", "||"]), atom(r, names)) + &tail(r),
-        19 => format!("{}{}", pick_s(r, &[">", "<", ">>", "2>", ">|", "<>"]), pick_s(r, &["f", " f", " a", ""])) + &tail(r),
-        20 => format!("{} {}{}", atom(r, names), pick_s(r, &[">", "<", ">>"]), pick_s(r, &["f", " g"])) + &tail(r),
-        21 => format!(" {}", atom(r, names)) + &tail(r),
-        22 => format!("{}\n{}", atom(r, names), atom(r, names)) + &tail(r),
+        22 => pick_s(r, &["if", "then", "else", "fi", "{", "}", "!", "do", "done", "elif", "for", "case", "in", "esac", "function"]) + &tail(r),
+        23 => format!("if {}; then", atom(r, names)) + &tail(r),
+        24 => pick_s(r, &["{ ", "( ", "! ", "while false; do ", "until true; do "]) + &atom(r, names) + &tail(r),
+        25 => pick_s(r, &["|", ";", "&&", "||", "&", ")", "(", ";;", "()", "=("]) + &tail(r),
+        26 => format!("{} {}", atom(r, names), pick_s(r, &["|", ";", "&&", "||"])) + &tail(r),
+        27 => format!("{} {}", pick_s(r, &["|", ";", "&&", "||"]), atom(r, names)) + &tail(r),
+        28 => format!("{}{}", pick_s(r, &[">", "<", ">>", "2>", ">|", "<>"]), pick_s(r, &["f", " f", " a", ""])) + &tail(r),
+        29 | 30 => format!("{} {}{}", atom(r, names), pick_s(r, &[">", "<", ">>"]), pick_s(r, &["f", " g"])) + &tail(r),
+        31 => format!(" {}", atom(r, names)) + &tail(r),
+        32 => format!("{}\n{}", atom(r, names), atom(r, names)) + &tail(r),
         _ => pick_s(r, &["v=1", "v=1 ", "v=a ", "2", "x;", "x|", "'x y' ", "a\\ b ", "v=", "for c in", "case a in", "a) "]),
     }
 }
@@ -763,6 +763,11 @@ fn corpus() -> Vec<Case> {
         c(t(&[("a", "b ", false), ("b", "c ", false), ("c", "w", false), ("y", "z", false)]), "a y y\nx a y\n"),
         c(t(&[("a", "x b", false), ("b", "y ", false), ("c", "z", false)]), "a c c\n"),
         c(t(&[("a", "b c", false), ("b", "y ", false), ("c", "z", false)]), "a c c\n"),
+        // a blank inside a blank-ending value is not its end, even if a nested replacement follows it
+        c(t(&[("a", "x b ", false), ("b", "y", true), ("y", "z", false)]), "a y y\n"),
+        c(t(&[("a", "x b y ", false), ("b", "y ", true), ("y", "z", false)]), "a y\n"),
+        c(t(&[("a", "b  c ", false), ("b", "", false), ("c", "w", false), ("y", "z", false)]), "a y y\n"),
+        c(t(&[("a", "b b ", false), ("b", "c ", false), ("c", "", true), ("y", "z", false)]), "a y y\nw a y c y\n"),
         // several substitutions in one operand / word position (take_token_auto loops)
         c(t(&[("a", "b", true), ("b", "c", true), ("c", "f", true)]), "x >a <b; for a in a b; do a; done\ncase a in a) ;; esac\nv=(a b)\n"),
         c(t(&[("a", "x ", false), ("b", "c", false), ("c", "f", false)]), "a b b\n"),
